@@ -3,6 +3,7 @@ package props
 import (
 	"fmt"
 	"strings"
+	"verifh/mapctl"
 
 	"github.com/compose-spec/compose-go/v2/loader"
 
@@ -16,7 +17,7 @@ type c16 struct{}
 func (c16) ID() string    { return "C16" }
 func (c16) Level() string { return "fault_enumeration" }
 func (c16) Rule() string {
-	return "three environment keys at once, each {valueless and defined by the project environment with its own value, valueless and undefined, given a value, absent} x {list, mapping} x {default load, normalisation skipped, explicit WithServicesEnvironmentResolved}; one key in every subset of the layers {project environment, env_file 1, 2, 3} x {no environment entry, with value, empty value, without value} x {list, mapping} spelling; two-key cross references (value ${K2} in env file j with K2 defined in exactly one of project environment / earlier file / earlier line / later file); every {present, absent} x {required, optional} state vector of the three env files; discard on/off; the same lattice for label_file 1..2 x labels; every case loaded through the real loader and compared with the layering reference. distinct = distinct (layer subset, outcome) pairs"
+	return "an env file shared by two services whose earlier files define the referenced variable differently (2 declaration orders x discard x 4 map rotations); three environment keys at once, each {valueless and defined by the project environment with its own value, valueless and undefined, given a value, absent} x {list, mapping} x {default load, normalisation skipped, explicit WithServicesEnvironmentResolved}; one key in every subset of the layers {project environment, env_file 1, 2, 3} x {no environment entry, with value, empty value, without value} x {list, mapping} spelling; two-key cross references (value ${K2} in env file j with K2 defined in exactly one of project environment / earlier file / earlier line / later file); every {present, absent} x {required, optional} state vector of the three env files; discard on/off; the same lattice for label_file 1..2 x labels; every case loaded through the real loader and compared with the layering reference. distinct = distinct (layer subset, outcome) pairs"
 }
 func (c16) Assumptions() []string {
 	return []string{
@@ -115,6 +116,43 @@ func (c16) Run(c *core.Ctx) {
 				}
 				return core.Outcome{Class: cls, Sample: sample}
 			})
+		}
+	}
+	// ---- an env file shared by two services: its references resolve per service (each against that service's own earlier files)
+	for order := 0; order < 2; order++ {
+		for discard := 0; discard < 2; discard++ {
+			for rot := uintptr(0); rot < 4; rot++ {
+				order, discard, rot := order, discard, rot
+				id := fmt.Sprintf("shared-file/o%d/d%d/r%d", order, discard, rot)
+				c.Do(id, func() core.Outcome {
+					files := map[string]string{"a.env": "WHO=a\n", "b.env": "WHO=b\n", "shared.env": "GREETING=hello-${WHO}\nPLAIN=p\n"}
+					svcs := []string{"  a:\n    image: i\n    env_file: [./a.env, ./shared.env]\n", "  b:\n    image: i\n    env_file: [./b.env, ./shared.env]\n"}
+					if order == 1 {
+						svcs[0], svcs[1] = svcs[1], svcs[0]
+					}
+					files["compose.yaml"] = "services:\n" + svcs[0] + svcs[1] + "  c:\n    image: i\n    env_file: [./shared.env]\n    environment: {WHO: c}\n"
+					s := &Scn{Files: files, Main: []string{"compose.yaml"}}
+					if discard == 1 {
+						s.Opts = []func(*loader.Options){loader.WithDiscardEnvFiles}
+					}
+					root := s.Materialise()
+					mapctl.SetUniform(rot)
+					p, err := s.LoadAt(root)
+					mapctl.SetUniform(0)
+					sample := map[string]any{"case": id, "files": files}
+					if err != nil {
+						return core.Outcome{Class: "err", Sample: sample, Viol: &core.Violation{Key: "env:spurious-error", Msg: id + ": " + err.Error()}}
+					}
+					for _, n := range []string{"a", "b"} {
+						got := p.Services[n].Environment["GREETING"]
+						if got == nil || *got != "hello-"+n {
+							return core.Outcome{Class: "wrong", Sample: sample, Viol: &core.Violation{Key: "env:shared-file-resolved-for-another-service",
+								Msg: fmt.Sprintf("%s: service %s has GREETING=%s, expected hello-%s (its own earlier env file defines WHO=%s)", id, n, ptrStr(got), n, n)}}
+						}
+					}
+					return core.Outcome{Class: id, Sample: sample}
+				})
+			}
 		}
 	}
 	// ---- single key over the layer lattice
